@@ -650,7 +650,7 @@ fn entry_id<Z: Zone>(e: &Entry<Z, u64>) -> u64 {
 }
 
 pub fn run_c22(ctx: &Ctx, rep: &mut Report) {
-    let n = if ctx.is_miri() { ctx.cases(4, 160) } else { ctx.cases(12_000, 600_000) };
+    let n = if ctx.is_miri() { ctx.cases(1, 32) } else { ctx.cases(12_000, 600_000) };
     let pool: Vec<RName> = ["z.", "a.z.", "b.a.z.", "c.b.a.z.", "b.z.", ".", "a.b.z.", "other.", "A.Z."].iter().map(|s| RName::simple(s)).collect();
     let classes = [C_IN, C_CH, 65280u16];
     for case in ctx.case_range(n) {
